@@ -615,6 +615,13 @@ class Enumerator:
             if exc:
                 out.append((st1, ("raise", exc)))
                 continue
+            # lazy iteration: a generator expression's body, and the iterator a call returned, can fail at any next()
+            lazy = [n for n in ast.walk(it) if isinstance(n, ast.Call)] if isinstance(it, ast.GeneratorExp) else ([it] if isinstance(it, ast.Call) else [])
+            for n in lazy:
+                for kind in self.cfg.raises("iter", render(n), n, st1):
+                    s3 = st1.fork()
+                    self.emit(s3, "raised", kind, s, at=render(n), lazy=True)
+                    out.append((s3, ("raise", kind)))
             body_st = st1.fork()
             self._havoc(body_st, _assigned_names(s.body), _stored_attrs(s.body), tag)
             elem = self.cfg.loop_elem(s, it, st1) or ast.Call(ast.Name("$elem", ast.Load()), [it], [])
@@ -873,10 +880,14 @@ class Enumerator:
     def _e_comp(self, e, st):
         # opaque, but calls inside are recorded (flagged) so that who-may-call rules see them
         t = self.subst(e, st)
+        # a generator expression evaluates only its outermost iterable now; everything else runs when it is consumed (see s_For)
+        eager = {id(x) for x in ast.walk(e.generators[0].iter)} if isinstance(e, ast.GeneratorExp) else None
         for n in ast.walk(e):
             if isinstance(n, ast.Call):
                 ft = render(self.subst(n.func, st))
                 self.emit(st, "call", render(self.subst(n, st)), n, func=ft, in_comprehension=True, args=[render(self.subst(a, st)) for a in n.args])
+                if eager is not None and id(n) not in eager:
+                    continue
                 kinds = list(self.cfg.raises("call", render(self.subst(n, st)), n, st))
                 if kinds:
                     res = []
